@@ -8,7 +8,7 @@ from .lib import decision, guards, paths
 from .lib.mir import AnchorLost
 from .lib.reachrule import ReachRule
 
-CONFIGS_QUICK = ["A"]
+CONFIGS_QUICK = ["A", "R"]
 CONFIGS_THOROUGH = ["A", "R", "NOAPI"]
 TECHNIQUE = "dominance of the success return by every verification step (built MIR) + per-algorithm arm/table agreement + panic reachability"
 LEVEL_TEXT = ("Decides clauses C12-a/b/c: the Ok return of JWT::verified is dominated by the alg comparison against the configured algorithm, the nbf/exp/iat "
